@@ -154,6 +154,16 @@ AttachReq(d, n, l) ==
     /\ lastAct' = [k |-> "attach_req", d |-> d, node |-> n, lane |-> l]
     /\ UNCHANGED <<subs, routes, inst, alive, inDone, outDone, regOut, out, inbox, sys, wireIn, resolving, closed, cnt>>
 
+\* a send-only client: AttachClient::OneWay -> registration_task -> RegisterOutgoing only; it is
+\* subscribed to nothing, so nothing is ever routed to it
+AttachOneWay(d) ==
+    /\ ~closed /\ dl[d].st = "new"
+    /\ dl' = [dl EXCEPT ![d] = [st |-> "req", node |-> "-", lane |-> "-"]]
+    /\ pendOut' = Append(pendOut, d)
+    /\ inDone' = inDone \cup {d}               \* nothing to do on the incoming half
+    /\ lastAct' = [k |-> "attach_oneway", d |-> d]
+    /\ UNCHANGED <<subs, routes, inst, alive, pendIn, outDone, regOut, out, inbox, sys, wireIn, resolving, closed, cnt>>
+
 \* the `done` promise of the attach request is fulfilled (both halves registered)
 AttachDone(d) ==
     /\ dl[d].st = "req" /\ d \in inDone /\ d \in outDone
@@ -309,7 +319,7 @@ MuxEnd(s) ==
 
 Internal == RegIn \/ RegOut \/ Route \/ Resolve \/ MuxSys \/ \E s \in Srcs : Mux(s) \/ MuxEnd(s)
 Env == \/ \E d \in Dls : \/ \E n \in Nodes, l \in Lanes : AttachReq(d, n, l)
-                         \/ AttachDone(d) \/ DlDetach(d)
+                         \/ AttachOneWay(d) \/ AttachDone(d) \/ DlDetach(d)
                          \/ \E m \in ReqMsgs : DlSend(d, m)
        \/ \E n \in Nodes : AgentStop(n) \/ \E m \in RespMsgs : AgentSend(n, m)
        \/ \E f \in Frames : PeerSend(f)
@@ -365,7 +375,7 @@ TablesSound ==
           LET d == subs[p][j] IN /\ dl[d].node = p[1] /\ dl[d].lane = p[2] /\ d \in inDone
                                  /\ \A j2 \in 1..Len(subs[p]) : j2 # j => subs[p][j2] # d
     \* nobody registered and alive is missing from the table
-    /\ \A d \in Dls : (d \in inDone /\ DlAlive(d)) => \E j \in 1..Len(subs[<<dl[d].node, dl[d].lane>>]) : subs[<<dl[d].node, dl[d].lane>>][j] = d
+    /\ \A d \in Dls : (d \in inDone /\ DlAlive(d) /\ dl[d].node # "-") => \E j \in 1..Len(subs[<<dl[d].node, dl[d].lane>>]) : subs[<<dl[d].node, dl[d].lane>>][j] = d
     /\ \A n \in Nodes : routes[n] # 0 => routes[n] = inst[n]
 \* a source that wrote something is (or is about to be) multiplexed: nothing can be stranded
 NothingStranded == \A s \in Srcs : out[s] # <<>> => (s \in regOut \/ closed)
